@@ -67,6 +67,7 @@ Next ==
             /\ Check(\A i, j \in FreshNonSeed(e.nodes) : e.nodes[i].u = e.nodes[j].u => i = j, l,
                      "the same URL is left to be fetched by two non-seed nodes of one tree")
             /\ UNCHANGED <<rec, open>>
+       [] OTHER -> UNCHANGED <<rec, open>>
   /\ l' = l + 1
 
 Spec == Init /\ [][Next]_vars
